@@ -23,6 +23,16 @@ fn main() {
 		println!("{}", r.transcript);
 		return;
 	}
+	if a.get(1).map(|s| s.as_str()) == Some("--replay-file") {
+		// one T2 case line per input line: re-run each under its recorded schedule (used under Miri)
+		for line in std::fs::read_to_string(&a[2]).expect("file").lines() {
+			if let Some((c, sched)) = T2Case::parse(line) {
+				let r = run_t2(&c, Plan::Tids(&sched));
+				println!("{}", r.transcript);
+			}
+		}
+		return;
+	}
 	let quick = a[1] == "quick";
 	let seed: u64 = a[2].parse().unwrap_or(1);
 	let outdir = &a[3];
@@ -30,7 +40,7 @@ fn main() {
 	let mut rng = Rng(seed.wrapping_mul(0x9E3779B97F4A7C15) | 1);
 	let mut cases = std::io::BufWriter::new(std::fs::File::create(format!("{outdir}/conc.cases")).unwrap());
 	let mut imp = std::io::BufWriter::new(std::fs::File::create(format!("{outdir}/conc.impl")).unwrap());
-	let max_runs = if quick { 120 } else { 1500 };
+	let max_runs = if quick { 120 } else { 400 };
 	let mut total = 0usize;
 	let mut base_cases = 0usize;
 	let mut deadlocks = 0usize;
@@ -84,7 +94,7 @@ fn main() {
 			let perms = permutations(n);
 			for colls in menus {
 				let (ca, cb) = (colls.len() - 2, colls.len() - 1);
-				let perm_list: Vec<Vec<usize>> = if quick { vec![perms[0].clone(), perms[perms.len() - 1].clone()] } else { perms.clone() };
+				let perm_list: Vec<Vec<usize>> = if quick || n >= 3 { vec![perms[0].clone(), perms[perms.len() - 1].clone()] } else { perms.clone() };
 				for perm in perm_list {
 					// per-thread programs
 					let wr = |t: u64| vec![Step::Write(0, 10 + t), Step::Read(0)];
